@@ -598,7 +598,8 @@ func TestLibraryPaths(t *testing.T) {
 func TestReplay(t *testing.T) {
 	e := vt.Get()
 	e.RunReplay(t, map[string]func(json.RawMessage) error{
-		"opequal": vt.Handler(check),
-		"paths":   vt.Handler(checkPaths),
+		"opequal":          vt.Handler(check),
+		"paths":            vt.Handler(checkPaths),
+		"equality-program": vt.Handler(checkProgram),
 	})
 }
